@@ -330,6 +330,11 @@ pub fn apply<const N: usize>(
             });
             m(|| drop(it));
         }
+        DropBuf => {
+            let b = sut.b.take().unwrap();
+            m(|| drop(b));
+            tr.push(Obs::Unit);
+        }
         Get(i) => {
             let r = m(|| sut.bref().get(i));
             ret_ref(r, tr)
